@@ -11,7 +11,7 @@ impl WitnessesCalculator {
         ensures r is Ok ==> final(self).added() == old(self).added().push(*address), r is Err ==> final(self).added() == old(self).added() { unimplemented!() }
 }
 // ---- what TxProposal::create_tx assembles: only which inputs / outputs / fee go into the body matters here
-opaque_types!(TransactionInput, TransactionWitnessSet, AssetCategorizer, Value);
+opaque_types!(TransactionInput, TransactionWitnessSet, Value);
 clone_eq!(TransactionInput);
 #[verifier::external_body] pub struct TransactionOutput { _p: core::marker::PhantomData<u8> }
 pub struct TransactionUnspentOutput { pub input: TransactionInput, pub output: TransactionOutput }
@@ -43,3 +43,44 @@ impl TxOutputProposal {
     #[verifier::external_body] pub fn create_output(&self, asset_groups: &AssetCategorizer, used_utxos: &HashSet<UtxoIndex>) -> (r: Result<TransactionOutput, JsError>)
         ensures r is Ok ==> r->Ok_0 == self.output_of(*asset_groups, used_utxos@) { unimplemented!() }
 }
+// ---- the categorizer as far as try_append_pure_ada_utxo / get_tx_proposal_size look at it
+opaque_types!(AssetsCalculatorO, PlaneAssetId, PolicyID, LinearFeeO, DataCostO, ExUnitPricesO, UnitIntervalO, AmountsO, FreeMapsO);
+clone_eq!(TxProposal);
+
+/// the protocol parameters the batcher reads
+pub struct TransactionBuilderConfig { pub max_tx_size: u32, pub max_value_size: u32, pub rest: LinearFeeO }
+pub struct CborCalculator();
+pub open spec fn uint_len(c: u64) -> nat { if c <= 23 { 1 } else if c < 0x100 { 2 } else if c < 0x10000 { 3 } else if c < 0x1_0000_0000 { 5 } else { 9 } }
+impl CborCalculator {
+    /// (unit batch_sizes / batch_calc: proved there with these contracts)
+    pub uninterp spec fn body_size(f: HashSet<TxBodyNames>) -> nat;
+    #[verifier::external_body] pub fn get_bare_tx_size(has_auxiliary: bool) -> (r: usize) ensures r == 2 + (if has_auxiliary { 0int } else { 1 }) { unimplemented!() }
+    #[verifier::external_body] pub fn get_bare_tx_body_size(body_fields: &HashSet<TxBodyNames>) -> (r: usize) ensures r == Self::body_size(*body_fields), r <= 0xffff { unimplemented!() }
+    #[verifier::external_body] pub fn get_struct_size(items_count: u64) -> (r: usize) ensures r == uint_len(items_count) { unimplemented!() }
+    #[verifier::external_body] pub fn get_coin_size(coin: &Coin) -> (r: usize) ensures r == uint_len(coin.0) { unimplemented!() }
+}
+impl WitnessesCalculator {
+    pub uninterp spec fn full(&self) -> nat;
+    #[verifier::external_body] pub fn get_full_size(&self) -> (r: usize) ensures r == self.full() { unimplemented!() }
+}
+impl AssetCategorizer {
+    /// asset_categorizer.rs set_min_ada_for_tx (recalculate_outputs through iter_mut + estimate_fee: not under contract): it leaves the proposal's inputs
+    /// alone and returns the size of the proposal AS IT LEAVES IT (`sized`: uninterpreted, the size model get_tx_proposal_size computes)
+    pub uninterp spec fn sized(&self, p: TxProposal) -> nat;
+    #[verifier::external_body] pub fn set_min_ada_for_tx(&self, tx_proposal: &mut TxProposal) -> (r: Result<usize, JsError>)
+        ensures r is Ok ==> r->Ok_0 == self.sized(*final(tx_proposal)), final(tx_proposal).used_utoxs == old(tx_proposal).used_utoxs,
+                final(tx_proposal).tx_output_proposals@.len() == old(tx_proposal).tx_output_proposals@.len(), final(tx_proposal).total_ada == old(tx_proposal).total_ada { unimplemented!() }
+    /// picks unused pure-ada UTxOs (from the free list: indexes of real UTxOs) until the amount is covered
+    #[verifier::external_body] pub fn get_next_pure_ada_utxo_by_amount(&self, need_ada: &Coin, ignore_list: &HashSet<UtxoIndex>) -> (r: Result<Vec<(UtxoIndex, Coin)>, JsError>)
+        ensures r is Ok ==> forall|i: int| 0 <= i < r->Ok_0@.len() ==> (#[trigger] r->Ok_0@[i]).0.0 < self.addresses@.len() { unimplemented!() }
+}
+/// `set.into_iter().collect()` (R-collect): the elements, each once
+#[verifier::external_body] pub fn hashset_into_vec_(s: HashSet<UtxoIndex>) -> (r: Vec<UtxoIndex>) ensures r@.to_set() == s@, r@.no_duplicates() { unimplemented!() }
+// derived Ord of BigNum(u64) = integer order
+impl vstd::std_specs::cmp::PartialOrdSpecImpl for BigNum {
+    open spec fn obeys_partial_cmp_spec() -> bool { true }
+    open spec fn partial_cmp_spec(&self, other: &BigNum) -> Option<core::cmp::Ordering> {
+        if self.0 < other.0 { Some(core::cmp::Ordering::Less) } else if self.0 == other.0 { Some(core::cmp::Ordering::Equal) } else { Some(core::cmp::Ordering::Greater) }
+    }
+}
+impl PartialOrd for BigNum { #[verifier::external_body] fn partial_cmp(&self, o: &BigNum) -> (r: Option<core::cmp::Ordering>) { unimplemented!() } }
